@@ -215,9 +215,10 @@ Section Field.
   Definition d_degree (d : Divisor) : option Z :=
     checked_sub (fold_left (fun deg t => deg + fst t) (d_num d) 0) (Z.of_nat (length (d_ex d))).
 
-  (* numerator loop of evaluate_at; `*degree as u32` truncates the exponent *)
+  (* numerator loop of evaluate_at; `*degree as u64` (lossless for a 64-bit usize; it was `as u32` before the
+     fix recorded in fixes/c16-divisor-exponent-truncation.diff, which truncated degrees >= 2^32) *)
   Definition eval_numerator (d : Divisor) (x : F) : F :=
-    fold_left (fun acc t => fmul O acc (fsub O (fpow x (fst t mod 2 ^ 32)) (snd t))) (d_num d) (fone O).
+    fold_left (fun acc t => fmul O acc (fsub O (fpow x (fst t mod 2 ^ 64)) (snd t))) (d_num d) (fone O).
   (* evaluate_exemptions_at *)
   Definition eval_exemptions (d : Divisor) (x : F) : F :=
     fold_left (fun r e => fmul O r (fsub O x e)) (d_ex d) (fone O).
@@ -230,14 +231,11 @@ Section Field.
     fold_right (fun c acc => fadd O c (fmul O acc x)) (fzero O) p.
 
   (* fft::interpolate_poly(values, get_inv_twiddles(len)) by its specification: the inverse DFT over
-     the subgroup generated by w = g^(n/len); [winv] = w^-1, [minv] = (len as field element)^-1.
+     the subgroup generated by w = g^(n/len); [winv] = w^-1, [minv] = (len as field element)^-1:
+     coefficient k = minv * sum_j v_j * winv^(j*k) = minv * (the polynomial with coefficients v at winv^k).
      The FFT itself belongs to C09; the correspondence compares this with the real output. *)
-  Definition idft_coeff (winv minv : F) (vals : list F) (k : Z) : F :=
-    fmul O minv
-      (fold_left (fun acc jv => fadd O acc (fmul O (snd jv) (fpow winv (fst jv * k))))
-                 (combine (zrange 0 (Z.of_nat (length vals))) vals) (fzero O)).
   Definition idft (winv minv : F) (vals : list F) : list F :=
-    map (idft_coeff winv minv vals) (zrange 0 (Z.of_nat (length vals))).
+    map (fun k => fmul O minv (poly_eval vals (fpow winv k))) (zrange 0 (Z.of_nat (length vals))).
 
   (* BoundaryConstraint { column, poly, poly_offset } (the composition coefficient is irrelevant here) *)
   Record BConstraint := mkBC { bc_col : Z; bc_poly : list F; bc_off_steps : Z; bc_off : F }.
